@@ -2,6 +2,7 @@ package sx
 
 import (
 	"fmt"
+	"os"
 	"sort"
 	"strings"
 	"sync"
@@ -129,6 +130,9 @@ func (e *Explorer) Run() *Report {
 				}
 
 				mu.Lock()
+				if os.Getenv("GOSX_TRACE") != "" {
+					fmt.Printf("PATH %v end=%s/%s %s\n   facts=%v\n   trace=%v\n", res.Taken, res.End.Kind, res.End.Label, res.End.Msg, res.Facts, res.Trace)
+				}
 				busy--
 				rep.Paths++
 				rep.Steps += int64(res.Steps)
@@ -248,8 +252,8 @@ func factKey(f map[string]string) string {
 func (it *Interp) samplePath(res *PathResult) map[string]any {
 	m := map[string]any{"decisions": fmt.Sprint(res.Taken), "path_condition_conjuncts": res.PCSize}
 	if len(it.vars) > 0 {
-		r, model, err := it.Solver.Check(nil, it.vars)
-		if err == nil && r == smt.Sat {
+		r, model := it.modelOf(nil)
+		if r == smt.Sat {
 			mm := map[string]int64{}
 			for _, v := range it.vars {
 				val := model[v.Name]
